@@ -30,7 +30,7 @@ def impl_obs(cls, out, val):
     return f"({code}%N, {vlib.coq_str(unesc(out))}, {vlib.coq_str(unesc(val)) if code == 0 else vlib.coq_str('')})"
 
 
-def run_stream(ctx, progs, levels="0,1,2,3", gc=None, passes=None):
+def run_stream(ctx, progs, levels="0,1,2,3", gc=None, passes=None, code=False):
     """Runs hx_ast on the programs; returns dict i -> {"ast": {...}, "run": {...}, "front": err}."""
     ok, paths, log = vlib.harness_build(["hx_ast"])
     if not ok:
@@ -46,6 +46,8 @@ def run_stream(ctx, progs, levels="0,1,2,3", gc=None, passes=None):
         cmd += ["--gc-mode", str(gc[0]), "--gc-k", str(gc[1])]
     if passes:
         cmd += ["--passes", passes]
+    if code:
+        cmd += ["--code"]
     rc, out = vlib.sh(cmd, timeout=1800)
     os.remove(f)
     res = collections.defaultdict(lambda: {"ast": {}, "run": {}, "front": None})
@@ -60,6 +62,8 @@ def run_stream(ctx, progs, levels="0,1,2,3", gc=None, passes=None):
             res[int(t[1])]["run"][t[2]] = (t[3], t[4], t[5], t[6])
         elif t[0] == "FRONT":
             res[int(t[1])]["front"] = t[2]
+        elif t[0] == "CODE" and len(t) >= 7:
+            res[int(t[1])].setdefault("code", {}).setdefault(t[2], []).append((t[3], t[4], t[5], t[6]))
         elif t[0] == "WIN" and len(t) >= 5:
             res[int(t[1])].setdefault("win", {})[t[2]] = (int(t[3]), t[4])
     return res
@@ -181,7 +185,7 @@ TRUSTED = [
 def run(ctx):
     ctx.level = "translation_validation"
     ctx.cov["trusted_base"] = TRUSTED
-    proved = ctx.prove("C02", extracted=["ValueConsts", "Opcodes"])
+    proved = ctx.prove("C02", extracted=["ValueConsts", "Opcodes", "RegUse", "VerifierTable"])
     if ctx.tier == "thorough" and proved:
         ctx.coqchk("C02")
     ok, out = vlib.coq_make(["Model/EvalObs.vo", "Model/RegPoolObs.vo"])
@@ -197,10 +201,11 @@ def run(ctx):
     rp = replay_program(ctx)
     if rp is not None:
         progs, feats, corpus, corpus_names = [rp], [["replay"]], [], []
-    res = run_stream(ctx, progs)
+    res = run_stream(ctx, progs, code=True)
     if res is None:
         return
     call_windows(ctx, progs, res)
+    call_liveness(ctx, progs, res)
     cases, idx = [], []
     dist = collections.Counter()
     featc = collections.Counter()
@@ -295,6 +300,58 @@ def call_windows(ctx, progs, res):
             calls += n
             bad += 1 if off else 0
     ctx.cov["call_windows"] = {"frame_pushing_calls_emitted": calls, "programs_levels_with_a_reserved_register_above_a_window": bad}
+
+
+def call_liveness(ctx, progs, res):
+    """Model/CallLive.v on the bytecode the compiler emitted for every function of every program at
+    every level: a register that is read after a call returns, without being written in between
+    (must-liveness: Props/C02.v C02_live_register_has_a_path_to_a_read), must not lie above the
+    call's window - the callee's frame starts right after the window and overwrites it."""
+    ok, out = vlib.coq_make(["Model/CallLiveObs.vo"])
+    if not ok:
+        ctx.broken.append("coq: Model/CallLiveObs.vo does not build")
+        ctx.log(out[-2000:])
+        return
+    seen = {}
+    skipped = 0
+    for i in range(len(progs)):
+        for lvl, fns in sorted((res.get(i) or {}).get("code", {}).items()):
+            for path, arity, nregs, words in fns:
+                if words.startswith("TOO-LONG") or len(words.split()) > 1500:
+                    skipped += 1
+                    continue
+                seen.setdefault(words, (i, lvl, path))
+    keys = list(seen)
+    cases = ["[" + "; ".join(k.split()) + "]" for k in keys]
+    codes, err = vlib.coq_eval_codes("c02live", "From Aelys Require Import Model.CallLive Model.CallLiveObs.\nOpen Scope N_scope.", "live_code", cases, shard=120)
+    if err:
+        ctx.broken.append("call-liveness (Model/CallLive.v): model evaluation failed")
+        ctx.log(err[-2000:])
+        return
+    bad = 0
+    calls = 0
+    for k, code in zip(keys, codes):
+        calls += sum(1 for w in k.split() if (int(w) >> 24) in (21, 77, 78, 79, 80))
+        if not code:
+            continue
+        bad += 1
+        if bad > 3:
+            continue
+        i, lvl, path = seen[k]
+        pc = (code & 0xffffffff) - 1
+        mask = code >> 32
+        regs = [r for r in range(256) if mask >> r & 1]
+        w = int(k.split()[pc])
+        ctx.violation("c02:live-register-above-call-window",
+                      f"at -O{lvl}, function {path}: the call at word {pc} (opcode {w >> 24}, a={w >> 16 & 255}, b={w >> 8 & 255}, c={w & 255}) "
+                      f"has registers {regs} above its window that are read after it returns without being written again; "
+                      "the callee's frame starts right after the window and overwrites them",
+                      {"program": progs[i], "level": int(lvl), "function": path, "call_word": pc, "registers": regs,
+                       "bytecode_words": k, "theorem": "Props/C02.v C02_live_register_has_a_path_to_a_read"})
+    ctx.cov["call_liveness"] = {"distinct_functions_analysed": len(keys), "functions_too_long": skipped,
+                                "functions_with_a_live_register_above_a_call_window": bad, "call_instructions_seen": calls}
+    ctx.cov["evaluations"] = ctx.cov.get("evaluations", 0) + len(keys)
+    ctx.log(f"call liveness: {len(keys)} distinct functions, {bad} with a live register above a call window")
 
 
 def pool_tie(ctx):
